@@ -121,6 +121,15 @@ CLAIMED = {
             "offset used for the row index, V::new over the filled digest vector), in both builds. That rows equal polynomial "
             "values is numerical and not decided.",
             "rustc MIR of both feature configurations", "DESIGN.md section 4, C28"),
+    "C16": ("abstract interpretation of the S-box code over monomial exponents (exponents.py) + call-order / constant rules",
+            "Decides three structural clauses of the Rescue hashers (Rp62_248, Rp64_256, RpJive64_256): (R1) the exponent to which apply_sbox raises every state element, "
+            "computed by interpreting its MIR with each element abstracted to its exponent (square -> 2e, product -> sum, helper calls and element-wise iterator "
+            "combinators followed, `for _ in 0..M` unrolled from the const generic), is the smallest k >= 3 coprime to p - 1, and the exponent E of the unrolled addition "
+            "chain in apply_inv_sbox satisfies k * E = 1 (mod p - 1): exact inverse; (R2) a round is S-box, MDS, +ARK1[round], inverse S-box, MDS, +ARK2[round] and the "
+            "permutation applies rounds 0..NUM_ROUNDS; (R3) for the sponge variants merge writes 2 * DIGEST_SIZE into the capacity cell that hash_elements initialises with "
+            "the length and absorbs both digests. The MDS matrix, the round constants and the Jive summation are not compared with published values, and equality with a "
+            "reference permutation on every state is not decided.",
+            "rustc MIR; evaluated constants; C11's modulus table", "DESIGN.md section 4, C16"),
     "C17": ("dataflow / control-dependence rules over the MIR of the six hashers' Hasher and ElementHasher impls",
             "Decides necessary conditions of length and range separation: (R1) the Rescue sponges store a value derived from the input's len() "
             "(or a domain flag control-dependent on it, together with an end marker at the running position) into the state before the first permutation; "
@@ -143,7 +152,6 @@ NOT_APPLICABLE = {
     "C12": "FFT = naive evaluation is value-level; the only structural clause (schedule independence of the parallel code) is decided under C06.",
     "C13": "Polynomial helper results are numerical; no invariant of the control-flow graph implies them.",
     "C14": "Element-wise results and batch-boundary behaviour are numerical; the race-freedom part is covered by C06.",
-    "C16": "Equality of the Rescue permutation with a reference on every state is numerical; needs execution or symbolic evaluation.",
     "C18": "Root/opening consistency and parallel = sequential build are numerical; the rejection/no-panic part is C19.",
     "C21": "Assertion step sets / overlap detection are arithmetic case analysis over run-time integers; deciding exactness is enumeration, i.e. execution.",
     "C22": "Vanishing of boundary constraints on asserted cells is numerical (interpolation, divisor evaluation).",
